@@ -53,6 +53,15 @@ func VerifC10Partition(h *verifh.H) {
 			ok = sink.delivered[2*i] == ents[i] && sink.delivered[2*i+1] == ents[i]
 		}
 		h.Assert(ok, "duplicating transform: sink receives each entity twice in order")
+	case 3:
+		// every source entity and every created entity reaches the sink exactly once
+		for i := 0; i < n; i++ {
+			h.Assert(vCount(sink.delivered, ents[i]) == 1, "appending transform: every source entity reaches the sink exactly once")
+		}
+		for _, c := range tr.created {
+			h.Assert(vCount(sink.delivered, c) == 1, "appending transform: every created entity reaches the sink exactly once")
+		}
+		h.Assert(len(sink.delivered) == n+len(tr.created), "appending transform: nothing else reaches the sink")
 	}
 	h.Observe("delivered", len(sink.delivered))
 }
